@@ -1,6 +1,306 @@
+"""R12.3 entry-point coverage (must-pass-through on success exits, MIR) and R12.4 constructor discipline."""
+
+import os
+import re
+
+from .. import mirq, symx, model
+from ..interp import Machine, Adt, Term, explore
+from ..report import Unsupported
+from ..facts import VERIF
+
+CENSUS_RE = re.compile(r"^(std::result::Result<)?(miniscript::private::Miniscript<|descriptor::Descriptor<|"
+                       r"descriptor::bare::Bare<|descriptor::bare::Pkh<|descriptor::segwitv0::Wpkh<|"
+                       r"descriptor::segwitv0::Wsh<|descriptor::sh::Sh<|descriptor::tr::Tr<|"
+                       r"descriptor::tr::taptree::TapTree<)")
+
+
+def short(p):
+    """stable, readable key of a function path"""
+    q = re.sub(r"<impl ", "<", p)
+    q = q.replace("miniscript::private::", "").replace("descriptor::key::", "")
+    q = re.sub(r"<(\w+) as miniscript::context::ScriptContext>::Key", r"\1::Key", q)
+    return q
+
+
+def load_table():
+    """config/entry_points.tsv: <function key>\\t<class>\\t<reason>"""
+    out = {}
+    path = os.path.join(VERIF, "config", "entry_points.tsv")
+    for line in open(path):
+        line = line.rstrip("\n")
+        if not line or line.startswith("#"):
+            continue
+        parts = line.split("\t")
+        out[parts[0]] = (parts[1], parts[2] if len(parts) > 2 else "")
+    return out
+
+
+def census(F):
+    rows = []
+    for p, f in F.fns.items():
+        if f.get("kind") == "Closure" or f.get("derived"):
+            continue
+        if any(x in p for x in ("::tests::", "::test::", "test_utils", "benchmarks")):
+            continue
+        if f.get("vis") != "pub":
+            continue
+        out = F.ty(f["output"])
+        if CENSUS_RE.match(out):
+            rows.append(p)
+    return sorted(rows)
+
+
+def is_named(name, container_sub=None, trait=None):
+    def pred(callee):
+        if callee.get("name") != name:
+            return False
+        c = (callee.get("container") or "") + " " + (callee.get("resolved_container") or "") + " " + (callee.get("self_ty") or "")
+        if container_sub is not None and container_sub not in c and container_sub not in (callee.get("def") or ""):
+            return False
+        if trait is not None and trait not in (callee.get("trait") or ""):
+            return False
+        return True
+    return pred
+
+
 def check_entry_points(chk, F):
-    pass
+    rid = "R12.3"
+    chk.rule(rid, "every public function that returns a Miniscript / descriptor wrapper is classified, and on every "
+                  "success exit: miniscript parsers/decoders pass through Miniscript::validate; wrapper constructors "
+                  "through ScriptContext::top_level_checks (which validates against the context's consensus "
+                  "parameters); single-key wrappers through check_pk; taproot leaves through validate")
+    try:
+        table = load_table()
+    except IOError as e:
+        chk.fail(rid, "table", "cannot read config/entry_points.tsv: %s" % e, kind="unanalysable")
+        return
+    rows = census(F)
+    chk.floor(rid, "public constructor-like functions", len(rows), 100)
+    classes = {}
+    for p in rows:
+        key = short(p)
+        if key not in table:
+            chk.fail(rid, "unclassified|" + key,
+                     "public function %s returns a script/descriptor type but is not classified in "
+                     "config/entry_points.tsv (parser, wrapper, single-key, delegating, transform, building-block, "
+                     "infallible, accessor)" % key, F.fns[p]["span"])
+            continue
+        chk.ok(rid)
+        classes[p] = table[key][0]
+    stale = [k for k in table if k not in set(short(p) for p in rows)]
+    chk.obligation(rid, not stale, "stale", "entry_points.tsv lists functions that no longer exist: %s" % stale)
+
+    candidates = [p for p in F.fns if F.bodies.get(p, {}).get("mir") is not None
+                  and not any(x in p for x in ("::tests::", "::test::"))
+                  and F.fns[p]["span"].split(":")[0].startswith(("src/descriptor", "src/miniscript/mod.rs",
+                                                                    "src/miniscript/context.rs", "src/policy"))]
+    validate_t = is_named("validate", "Miniscript")
+    tlc_t = is_named("top_level_checks")
+    checkpk_t = is_named("check_pk")
+    must_validate = mirq.must_set(F, candidates, validate_t)
+    must_tlc = mirq.must_set(F, candidates, lambda c: tlc_t(c) or validate_t(c))
+    must_pk = mirq.must_set(F, candidates, checkpk_t)
+    any_t = lambda c: tlc_t(c) or validate_t(c) or checkpk_t(c)
+    must_any = mirq.must_set(F, candidates, any_t)
+    chk.extra["must_validate"] = sorted(short(p) for p in must_validate)
+    chk.extra["must_top_level_checks"] = sorted(short(p) for p in must_tlc)
+    n = 0
+    for p, cls in sorted(classes.items()):
+        key = short(p)
+        where = F.fns[p]["span"]
+        if cls == "parser":
+            n += 1
+            chk.obligation(rid, p in must_validate, "parser|" + key,
+                           "parser/decoder %s has a success exit that does not require Miniscript::validate to succeed"
+                           % key, where, detail={"function": p, "uncovered": mirq.must_pass(F, p, validate_t, must_validate)[1]})
+        elif cls == "wrapper":
+            n += 1
+            # sh(..) legitimately dispatches to wpkh (check_pk) and wsh (its own checks): any of the three
+            # guards may cover an arm, but a script-carrying arm must use top_level_checks / validate
+            direct = mirq.has_target_or_must_call(F, p, lambda c: tlc_t(c) or validate_t(c), must_any)
+            chk.obligation(rid, p in must_any and direct, "wrapper|" + key,
+                           "wrapper constructor %s has a success exit that does not require the context's "
+                           "top_level_checks / validate to succeed: %s"
+                           % (key, mirq.must_pass(F, p, any_t, must_any)[1]), where)
+        elif cls == "single-key":
+            n += 1
+            chk.obligation(rid, p in must_pk, "single-key|" + key,
+                           "single-key wrapper %s has a success exit that does not require check_pk to succeed: %s"
+                           % (key, mirq.must_pass(F, p, checkpk_t, must_pk)[1]), where)
+        elif cls == "delegating":
+            n += 1
+            ok = p in must_any
+            chk.obligation(rid, ok, "delegating|" + key,
+                           "%s is classified as delegating to a checking constructor but has an unchecked success exit"
+                           % key, where)
+    chk.floor(rid, "checked entry points", n, 40)
+    # the parameters each parser applies
+    rid2 = "R12.3p"
+    chk.rule(rid2, "default parsers validate with the context's SANE parameters, the *_insane / *_consensus variants "
+                   "with CONSENSUS (raw pkh additionally refused in text form); top_level_checks validates with the "
+                   "context's CONSENSUS parameters")
+    want = {"from_str": "SANE", "decode": "SANE", "decode_consensus": "CONSENSUS", "from_str_insane": "CONSENSUS"}
+    for p in rows:
+        f = F.fns[p]
+        nm = f.get("name")
+        if classes.get(p) != "parser" or nm not in want:
+            continue
+        consts = [n_["callee"].get("name") for n_ in symx.find_nodes(F.thir(p)["body"], lambda x: x.get("k") == "const")
+                  if (n_["callee"].get("trait") or "").endswith("ScriptContext")]
+        chk.obligation(rid2, consts == [want[nm]], "params|" + short(p),
+                       "%s validates with Ctx::%s (expected Ctx::%s)" % (short(p), consts, want[nm]), f["span"])
+    check_top_level_params(chk, F, rid2)
+    check_tr_leaves(chk, F, rid)
+
+
+def check_top_level_params(chk, F, rid):
+    """which parameters ScriptContext::top_level_checks hands to validate"""
+    try:
+        tl = [p for p in F.fn("top_level_checks", file="miniscript/context.rs", allow_many=True)
+              if "NoChecks" not in p]
+        vp = F.fn("validate", file="miniscript/mod.rs", container="Miniscript")
+    except KeyError as e:
+        chk.fail(rid, "top_level_checks|anchor", "missing %s" % e, kind="unanalysable")
+        return
+    from spec import limits as lspec
+    for p in tl:
+        got = {}
+
+        def hook(m, a, c, got=got):
+            got["params"] = a[1]
+            return Term("validate_result")
+        m = Machine(F, strict=False, hooks={vp: hook},
+                    uninterpreted=lambda pp, c: c.get("name") in ("top_level_type_check", "other_top_level_checks"))
+        try:
+            explore(m, lambda: m.call_path(p, [Term("ms")]))
+        except Unsupported as e:
+            chk.fail(rid, "top_level_checks|unanalysable", "unanalysable: %s" % e, F.fns[p]["span"], kind="unanalysable")
+            continue
+        P = got.get("params")
+        if P is None:
+            chk.fail(rid, "top_level_checks|novalidate", "%s does not call Miniscript::validate" % short(p), F.fns[p]["span"])
+            continue
+        fields = lspec.BOOL_FIELDS + lspec.LIMIT_FIELDS
+        for f in fields:
+            if isinstance(P, Term):
+                v = Term("field", P, f)
+            else:
+                v = P.fields.get(f)
+            base_ok = isinstance(v, Term) and "CONSENSUS" in repr(v)
+            tighter = (v is False) if f in lspec.BOOL_FIELDS else False
+            chk.obligation(rid, base_ok or tighter, "top_level_checks|" + f,
+                           "descriptor top-level validation uses %s = %r instead of the context's CONSENSUS value: the "
+                           "descriptor parser accepts scripts the consensus miniscript parser rejects "
+                           "(e.g. sh(or_i(pk(A),pk(B))), sh(u:0))" % (f, v), F.fns[p]["span"])
+
+
+def check_tr_leaves(chk, F, rid):
+    """every leaf pushed by Tr::from_tree has been validated"""
+    try:
+        p = [x for x in F.fn("from_tree", file="descriptor/tr/mod.rs", allow_many=True) if "Tr<" in x][0]
+    except (KeyError, IndexError) as e:
+        chk.fail(rid, "tr-leaves|anchor", "missing %s" % e, kind="unanalysable")
+        return
+    g = mirq.CFG(F, p)
+    pushes = [(b, c) for (b, c, t) in g.calls() if c.get("name") == "push_leaf"]
+    vals = [(b, g.ok_target(b)) for (b, c, t) in g.calls() if c.get("name") == "validate"]
+    chk.obligation(rid, bool(pushes), "tr-leaves|sites", "Tr::from_tree has no push_leaf call", F.fns[p]["span"])
+    for (pb, c) in pushes:
+        good = any(ok is not None and g.edge_dominates(ok[0], ok[1], pb) for (vb, ok) in vals)
+        chk.obligation(rid, good, "tr-leaves|validate",
+                       "Tr::from_tree pushes a leaf that was not validated against Tap's consensus parameters",
+                       F.fns[p]["span"])
+
+
+# ------------------------------------------------------------------------------------------------
+CONSTRUCT_RULES = [
+    # (ADT path, files allowed to construct it by struct literal, what guards the invariant)
+    ("primitives::threshold::Threshold", ["src/primitives/threshold.rs"], "validate_k_n / literal 1-of-2, 2-of-2 / copy of a valid k,n"),
+    ("primitives::absolute_locktime::AbsLockTime", ["src/primitives/absolute_locktime.rs"], "range test 1..=0x7fffffff"),
+    ("primitives::relative_locktime::RelLockTime", ["src/primitives/relative_locktime.rs"], "is_relative_lock_time && != 0"),
+    ("descriptor::tr::taptree::TapTree", ["src/descriptor/tr/taptree.rs"], "depth bound 128"),
+    ("miniscript::private::Miniscript", ["src/miniscript/mod.rs"], "type_check + context checks in from_ast"),
+]
 
 
 def check_constructors(chk, F):
-    pass
+    rid = "R12.4"
+    chk.rule(rid, "who-may-construct: Threshold / AbsLockTime / RelLockTime / TapTree / Miniscript values are built by "
+                  "struct literal only inside their defining module, behind the checks that establish their invariant; "
+                  "from_components_unchecked is called only from the audited sites")
+    for adt, allowed, why in CONSTRUCT_RULES:
+        if adt not in F.adts:
+            chk.fail(rid, adt + "|missing", "type %s not found" % adt, kind="unanalysable")
+            continue
+        n = 0
+        for p, b in F.bodies.items():
+            mir = b.get("mir")
+            if mir is None or any(x in p for x in ("::tests::", "::test::")):
+                continue
+            fn = F.fns.get(p, {})
+            if fn.get("derived"):
+                continue
+            for blk in mir["blocks"]:
+                for s in blk["stmts"]:
+                    if s["rv"] == "agg" and s.get("adt") == adt:
+                        n += 1
+                        file = s["sp"].split(":")[0]
+                        chk.obligation(rid, any(file.endswith(a) or file == a for a in allowed) or s["sp"].endswith("!") and False,
+                                       "%s|%s" % (adt.split("::")[-1], short(p)),
+                                       "%s is built by a struct literal in %s (%s), outside %s where its invariant (%s) "
+                                       "is established" % (adt.split("::")[-1], short(p), s["sp"], allowed, why), s["sp"])
+        chk.floor(rid, "literals of " + adt.split("::")[-1], n, 1)
+    # fields are private / restricted (a downstream crate cannot write the literal)
+    for adt, allowed, why in CONSTRUCT_RULES:
+        if adt not in F.adts:
+            continue
+        vis = [f["vis"] for f in F.adts[adt]["variants"][0]["fields"]]
+        chk.obligation(rid, any(v != "pub" for v in vis), adt.split("::")[-1] + "|privacy",
+                       "all fields of %s are public: anyone can build an invalid value" % adt, F.adts[adt]["span"])
+    # Threshold literals: guarded by validate_k_n or copying from self / literal 1,2
+    check_threshold_literals(chk, F, rid)
+    # from_components_unchecked callers
+    audited = {"policy::compiler", "miniscript::<impl miniscript::private::Miniscript<Pk, Ctx>>::substitute_raw_pkh"}
+    callers = set()
+    for p, b in F.bodies.items():
+        if b.get("thir") is None or any(x in p for x in ("::tests::", "::test::")):
+            continue
+        for n_ in symx.find_nodes(b["thir"]["body"], lambda x: x.get("k") == "call" and "callee" in x):
+            if n_["callee"].get("name") == "from_components_unchecked":
+                callers.add(p)
+    for c in sorted(callers):
+        good = any(c.startswith(a) for a in audited)
+        chk.obligation(rid, good, "unchecked|" + short(c),
+                       "%s calls Miniscript::from_components_unchecked but is not an audited site (compiler cast table; "
+                       "substitute_raw_pkh where RawPkH and PkH share their type)" % short(c), F.fns.get(c, {}).get("span", ""))
+    chk.floor(rid, "from_components_unchecked callers", len(callers), 2)
+
+
+def check_threshold_literals(chk, F, rid):
+    THR = "primitives::threshold::Threshold"
+    for p, b in F.bodies.items():
+        mir = b.get("mir")
+        if mir is None or not F.fns.get(p, {}).get("span", "").startswith("src/primitives/threshold.rs"):
+            continue
+        if F.fns[p].get("derived"):
+            continue
+        g = mirq.CFG(F, p)
+        lits = g.aggregates(THR)
+        if not lits:
+            continue
+        name = F.fns[p].get("name") or ""
+        vcalls = [(bb, g.ok_target(bb)) for (bb, c, t) in g.calls() if c.get("name") == "validate_k_n"]
+        for (lb, s) in lits:
+            guarded = any(ok is not None and g.edge_dominates(ok[0], ok[1], lb) for (vb, ok) in vcalls)
+            kop = s["ops"][0] if s.get("ops") else {}
+            literal_k = kop.get("o") == "const" and kop.get("int") in (1, 2) and name in ("or", "and")
+            # copying k (and a same-length / mapped collection) from an existing valid threshold
+            parent = F.fns.get(p.split("::{closure")[0], {}).get("name") or ""
+            asserted = name in ("or_n", "and_n") and any(
+                (c.get("def") or "").startswith("core::panicking::assert_failed") for (bb, c, t) in g.calls())
+            from_self = asserted or parent in ("translate", "translate_ref", "translate_by_index", "map", "map_ref") or name in ("forget_maximum", "map", "map_ref", "translate", "translate_ref", "map_from_post_order_iter",
+                                 "map_ref_from_post_order_iter", "into_sorted_bip67", "into_sorted_bip67_xonly",
+                                 "translate_by_index", "map_ref_by_index") or name.startswith("{closure")
+            chk.obligation(rid, guarded or literal_k or from_self, "Threshold|guard|" + short(p),
+                           "the Threshold literal in %s is not preceded by a successful validate_k_n, is not the fixed "
+                           "1-of-2 / 2-of-2, and the function is not a known k/n-preserving map" % short(p), s["sp"])
